@@ -314,7 +314,19 @@ fn gen_from(r: &mut Rng, cat: &Catalog, feats: &mut Vec<&'static str>, allow_cte
                     on = format!("{} AND {}", on, predicate(r, &s, 0, feats));
                     feats.push("join_on_extra");
                 }
-                format!("{} AS {} {} {} AS {} ON {}", q(&t1.name), a1, kind, q(&t2.name), a2, on)
+                if r.chance(1, 4) {
+                    // both sides are sub-queries (each input of the join is then a node of its own)
+                    feats.push("join_of_subqueries");
+                    let side = |r: &mut Rng, t: &TableDef| {
+                        let sc = Scope { cols: table_scope(t, None, false) };
+                        let mut f2 = vec![];
+                        let w = if r.bool() { format!(" WHERE {}", predicate(r, &sc, 1, &mut f2)) } else { String::new() };
+                        format!("(SELECT * FROM {}{})", q(&t.name), w)
+                    };
+                    format!("{} AS {} {} {} AS {} ON {}", side(r, t1), a1, kind, side(r, t2), a2, on)
+                } else {
+                    format!("{} AS {} {} {} AS {} ON {}", q(&t1.name), a1, kind, q(&t2.name), a2, on)
+                }
             };
             for c in cols.iter_mut() {
                 let left = c.sql.starts_with("l.");
@@ -356,7 +368,11 @@ fn gen_from(r: &mut Rng, cat: &Catalog, feats: &mut Vec<&'static str>, allow_cte
             let inner_scope = Scope { cols: table_scope(t1, None, false) };
             let mut f2 = vec![];
             let wher = if r.bool() { format!(" WHERE {}", predicate(r, &inner_scope, 1, &mut f2)) } else { String::new() };
-            let name = if r.chance(1, 4) { "t9".to_string() } else { "w".to_string() };
+            // sometimes the CTE takes the name of an existing table: the CTE is the one in scope
+            let name = if r.chance(1, 3) { r.pick(&cat.tables).name.clone() } else { "w".to_string() };
+            if name != "w" {
+                feats.push("cte_shadows_table");
+            }
             let cte = format!("{} AS (SELECT * FROM {}{})", name, q(&t1.name), wher);
             if r.chance(1, 3) {
                 // the same CTE name defined again inside a derived table: the inner definition is the one in scope there
